@@ -569,6 +569,13 @@ class FaultsWorld:
                 w['what'] = 'doc'
                 w['ps'] = [p for p in w['ps'] if not isinstance(p, str)] or [0]
             ws.append(w)
+        if cfg['attr_watchers'] and np_ >= 2 and rng.random() < 0.6:
+            # bias: two watchers of the same Parameter attribute, the first one queued and assigning a watched parameter - a
+            # failure of the second one then finds a deferred event in the queue
+            ws = ws[:3] + [
+                {'mode': 'args', 'o': 0, 'oc': False, 'prec': 0, 'ps': [0], 'q': True, 'script': [{'a': 'set', 'o': 0, 'p': 1}], 'what': 'doc'},
+                {'mode': 'args', 'o': 0, 'oc': False, 'prec': 0, 'ps': [0], 'q': rng.random() < 0.3, 'script': [], 'what': 'doc'},
+                {'mode': 'args', 'o': 0, 'oc': rng.random() < 0.5, 'prec': rng.choice([0, 1]), 'ps': [1], 'q': False, 'script': [], 'what': 'value'}]
         cfg['watchers'] = ws
         n_ops = min(30 if big else 18, 2 + int(rng.expovariate(1 / (10.0 if big else 7.0))))
         ops = []
